@@ -50,6 +50,7 @@ type seedIn struct {
 type bdef struct {
 	Hash int `json:"hash"`
 	Rank int `json:"rank"`
+	Toc  int `json:"toc,omitempty"` // RoundTimeoutCount (a re-proposal after a round restart carries a higher one)
 }
 type bop struct {
 	K string `json:"k"` // add|propose|update|best|heaviest
@@ -531,6 +532,7 @@ func runBlocks(in *blocksIn) (cs string, fail string, kinds map[string]int) {
 		b := block.NewBlock("", 11)
 		b.Hash = fmt.Sprintf("%064x", d.Hash)
 		b.RoundRank = d.Rank
+		b.RoundTimeoutCount = d.Toc
 		e.objs = append(e.objs, b)
 		e.idx[b] = i
 	}
@@ -729,7 +731,8 @@ func genBlocks(r *vh.Rand) *blocksIn {
 			if mixed && r.Chance(1, 3) {
 				rk = ranks[r.Intn(len(ranks))]
 			}
-			in.Blocks = append(in.Blocks, bdef{h, rk})
+			// blocks of one rank arrive with increasing and decreasing timeout counts
+			in.Blocks = append(in.Blocks, bdef{h, rk, r.Intn(4)})
 		}
 	}
 	for k := r.Range(1, 25); k > 0; k-- {
@@ -895,7 +898,7 @@ func main() {
 	}
 	// exhaustive: all sequences over a small alphabet. Objects: 0,1 = same hash (two objects),
 	// 2 = other hash with the same rank, 3 = third hash with another rank.
-	objs := []bdef{{1, 0}, {1, 0}, {2, 0}, {3, 1}}
+	objs := []bdef{{1, 0, 1}, {1, 0, 1}, {2, 0, 0}, {3, 1, 2}}
 	var alpha []bop
 	for i := range objs {
 		alpha = append(alpha, bop{"add", i}, bop{"update", i})
